@@ -11,6 +11,9 @@ OBLIGATIONS = [
     "NanoVerif.C07.mkDocs_sorted",
     "NanoVerif.C07.mkDocs_first_ge",
     "NanoVerif.C07.consecutive_run_ok",
+    "NanoVerif.C07.docRange_block",
+    "NanoVerif.C07.docRecords_blocks",
+    "NanoVerif.C07.picosvg_doc_records",
     "NanoVerif.C14.runs_consecutive",
     "NanoVerif.C14.runs_concat",
     "NanoVerif.C14.offsets_contiguous",
